@@ -121,8 +121,19 @@ def _mods():
 # ---- diagnostics level: a dimension of every case.  What is advertised and what reaches the plan must not
 # depend on it.  10 + n = level n with a stderr whose write() raises EIO (a forcibly closed terminal).
 LEVELS = [0, 0, 3, 0, 2, 0, 13, 1]
+CLOCKS_ROTATION = ['none', 'small', 'fwd-hour', 'back-hour', 'slow-2ms']
 _case_counter = [0]
 _level_shift = [0]
+
+
+_table_counter = [0]
+
+
+def next_clock():
+    """Time profile of the next table case: rotation by a per-run counter shifted by the seed (never ctx.rng)."""
+    c = CLOCKS_ROTATION[(_table_counter[0] + _level_shift[0]) % len(CLOCKS_ROTATION)]
+    _table_counter[0] += 1
+    return c
 
 
 def next_level():
@@ -163,17 +174,127 @@ def excname(e):
 
 # ------------------------------------------------------------------ fakes at the OS boundary
 
+# ---- time: a dimension of every case.  The routing tool's output is delivered under a VIRTUAL clock; what is
+# advertised must be the interpretable routes of the tool's COMPLETE output whatever the clock does meanwhile.
+CLOCKS = ['none', 'small', 'fwd-hour', 'back-hour', 'slow-2ms']
+_real_time = (time.time, time.monotonic, time.sleep)
+
+
+class VClock:
+    """Virtual wall clock + monotonic clock.  `tick(i, n)` is called before output line `i` of `n` is handed out:
+    none: nothing; small: 3 ms per line; slow-2ms: 2 ms per line (a long dump: 5000 lines take 10 s);
+    fwd-hour / back-hour: the wall clock (not the monotonic one) steps by an hour before the middle line."""
+
+    def __init__(self, profile):
+        self.profile = profile
+        self.wall = 1700000000.0
+        self.mono = 50000.0
+
+    def time(self):
+        return self.wall
+
+    def monotonic(self):
+        return self.mono
+
+    def sleep(self, secs):
+        self.wall += max(0.0, secs)
+        self.mono += max(0.0, secs)
+
+    def tick(self, i, n):
+        if self.profile == 'small':
+            self.sleep(0.003)
+        elif self.profile == 'slow-2ms':
+            self.sleep(0.002)
+        elif self.profile == 'fwd-hour' and i == n // 2:
+            self.wall += 3600.0
+        elif self.profile == 'back-hour' and i == n // 2:
+            self.wall -= 3600.0
+
+
+def set_clock(profile, modules=()):
+    """Install a virtual clock: time.time / time.monotonic / time.sleep on the real `time` module, and every
+    global of the modules under test that was bound to one of them (`from time import time`).  Returns the undo list."""
+    if not profile or profile == 'none':
+        FakePopen.clock = None
+        return []
+    clk = VClock(profile)
+    FakePopen.clock = clk
+    undo = []
+    repl = dict(zip(_real_time, (clk.time, clk.monotonic, clk.sleep)))
+    for name, fn in (('time', clk.time), ('monotonic', clk.monotonic), ('sleep', clk.sleep)):
+        undo.append((time, name, getattr(time, name)))
+        setattr(time, name, fn)
+    for mod in modules:
+        for name, val in list(vars(mod).items()):
+            for real_fn, fake in repl.items():
+                if val is real_fn:
+                    undo.append((mod, name, val))
+                    setattr(mod, name, fake)
+    return undo
+
+
+def clear_clock(undo):
+    for obj, name, val in reversed(undo):
+        setattr(obj, name, val)
+    FakePopen.clock = None
+
+
+class PacedOutput:
+    """The tool's stdout: hands out the lines of the complete output, ticking the virtual clock before each."""
+
+    def __init__(self, data, clock):
+        self.lines = list(io.BytesIO(data))
+        self.i = 0
+        self.clock = clock
+
+    def __iter__(self):
+        return self
+
+    def __next__(self):
+        if self.i >= len(self.lines):
+            raise StopIteration
+        if self.clock is not None:
+            self.clock.tick(self.i, len(self.lines))
+        ln = self.lines[self.i]
+        self.i += 1
+        return ln
+
+    def readline(self, *a):
+        try:
+            return next(self)
+        except StopIteration:
+            return b''
+
+    def read(self, *a):
+        return b''.join(self)
+
+    def close(self):
+        pass
+
+
 class FakePopen:
-    """`ssubprocess.Popen(argv, stdout=PIPE, env=...)`: a finished tool run with the given output."""
+    """`ssubprocess.Popen(argv, stdout=PIPE, env=...)`: a tool run with the given complete output, delivered line by
+    line under the case's virtual clock."""
     output = b''
     calls = []
+    clock = None
 
     def __init__(self, argv, stdout=None, env=None, **kw):
         FakePopen.calls.append(list(argv))
-        self.stdout = io.BytesIO(FakePopen.output)
+        self.stdout = PacedOutput(FakePopen.output, FakePopen.clock)
+        self.returncode = None
 
-    def wait(self):
+    def wait(self, *a, **k):
+        self.returncode = 0
         return 0
+
+    def poll(self):
+        return self.returncode
+
+    def kill(self):
+        self.returncode = -9
+
+    terminate = kill
 
 
 class DummyFile:
@@ -289,7 +410,7 @@ def close_children():
     RealToolPopen.children = []
 
 
-def run_server(tool, output, verbose=0, real=False):
+def run_server(tool, output, verbose=0, real=False, clock='none'):
     """The real `server.main(auto_nets=True)` up to and including `mux.send(0, CMD_ROUTES, …)`, with the
     server-side verbosity `verbose` (what `sshuttle -v` forwards).  `real=False`: the routing tool is an
     in-memory Popen stand-in; `real=True`: it is a child process writing to a pipe, `server.main` runs in a
@@ -330,6 +451,7 @@ def run_server(tool, output, verbose=0, real=False):
         p.set(server, 'Hostwatch', StopHostwatch)
         sys.stdout = out
         set_diag(verbose)
+        clock_undo = set_clock(None if real else clock, (server, helpers, ssnet))
         box = {}
 
         def body():
@@ -354,6 +476,7 @@ def run_server(tool, output, verbose=0, real=False):
             else:
                 body()
         finally:
+            clear_clock(clock_undo)
             helpers.verbose = 0
             sys.stdout, sys.stderr = old_stdout, old_stderr
         status = box.get('status', ('raise', 'no-status'))
@@ -381,15 +504,17 @@ def run_server(tool, output, verbose=0, real=False):
                     pass
 
 
-def line_real(tool, line, level=0):
+def line_real(tool, line, level=0, clock='none'):
     """`_list_routes` and `list_routes` of the real code on a one-line tool output."""
     ssnet, client, server, helpers = _mods()
     p = Patches()
     old_stderr = sys.stderr
+    clock_undo = []
     try:
         p.set(server.ssubprocess, 'Popen', FakePopen)
         p.set(server, 'which', lambda name, *a: ('/sbin/' + name) if name in TOOLS[tool] else None)
         set_diag(level)
+        clock_undo = set_clock(clock, (server, helpers))
         FakePopen.output = line
         try:
             kept = list(server.list_routes())
@@ -406,6 +531,7 @@ def line_real(tool, line, level=0):
             return 'filt %d,%s,%d' % raw[0]
         return 'skip'
     finally:
+        clear_clock(clock_undo)
         p.restore()
         helpers.verbose = 0
         sys.stderr = old_stderr
@@ -930,7 +1056,7 @@ def split_lines(output):
 
 
 def table_case(ctx, tool, lines, intents, flags, perline=True, label='table', verbose=None, real=False, regen=None,
-               listen=None, plan=None):
+               listen=None, plan=None, clock=None):
     """One routing table end to end.  `intents[i]` belongs to `lines[i]`.  `verbose`: server-side verbosity;
     `real`: the routing tool is a real child process on a real pipe; `regen`: how replay rebuilds a big table."""
     ssnet, client, server, helpers = _mods()
@@ -938,27 +1064,33 @@ def table_case(ctx, tool, lines, intents, flags, perline=True, label='table', ve
     if verbose is None:
         verbose = level
     ctx.hist('level:%d' % verbose)
+    rot = next_clock()                       # how the clock moves while the tool's output is read
+    if clock is None:
+        clock = rot
+    if real:
+        clock = 'none'                       # a real child process runs on the real clock
+    ctx.hist('clock:' + clock)
     output = b''.join(lines)
     log = CaseLog(label)
     log.add('begin ' + MODEL_TOOL[tool], 'ok')
     raised_line = None
     if perline:
         for ln, it in zip(lines, intents):
-            out = line_real(tool, ln, verbose)
+            out = line_real(tool, ln, verbose, clock)
             log.add('l ' + hexb(ln), out)
             ctx.count()
             cls = out.split()[0]
             ctx.hist('%s:%s:%s' % (tool, it[0], cls))
             if cls != 'skip' or ln.strip():
                 log.nontrivial = True
-            line_oracle(ctx, tool, ln, it, out, verbose)
+            line_oracle(ctx, tool, ln, it, out, verbose, clock)
             if cls == 'raise':
                 raised_line = ln
                 break
     else:
         for ln in lines:
             log.ins.append('q ' + hexb(ln))
-    status, wire = run_server(tool, output, verbose=verbose, real=real)
+    status, wire = run_server(tool, output, verbose=verbose, real=real, clock=clock)
     ctx.hist('server:verbose=%d:%s' % (verbose, 'real-process' if real else 'in-memory'))
     if FakePopen.calls[:1] != ([ARGV[tool]] if tool != 'x' else []):
         ctx.violation('C17:list_routes:wrong-tool', case=dict(stream='tool', tool=tool), expected='argv %r' % ARGV.get(tool),
@@ -975,7 +1107,7 @@ def table_case(ctx, tool, lines, intents, flags, perline=True, label='table', ve
     ctx.hist('user-plan:' + plan_class(incl, excl, exp))
     end_cmd = 'end %s %s' % (flags, plan_spec(incl, excl))
     ctx.hist('listener:%s:v4=%s,v6=%s' % (listen, flags[0], flags[1]))
-    tcase = dict(stream='table', tool=tool, flags=flags, listen=listen, verbose=verbose, real=real, regen=regen,
+    tcase = dict(stream='table', tool=tool, flags=flags, listen=listen, verbose=verbose, clock=clock, real=real, regen=regen,
                  incl=incl, excl=excl,
                  table=None if regen else hexb(output), strict=strict,
                  expect=None if regen else [list(e) for e in exp], gap=[list(e) for e in known_gap])
@@ -1036,7 +1168,7 @@ def table_case(ctx, tool, lines, intents, flags, perline=True, label='table', ve
             big = len(pl) > 65535
             ctx.hist('delivery:assert')
             ctx.violation(KEY_BIG if big else KEY_DELIV,
-                          case=dict(stream='table-size', tool=tool, nlines=len(lines), payload_len=len(pl), verbose=verbose,
+                          case=dict(stream='table-size', tool=tool, nlines=len(lines), payload_len=len(pl), verbose=verbose, clock=clock,
                                     routes=len(rts), table=(hexb(output) if len(output) < 4000 else None),
                                     regen=('minimal:%d' % len(lines)) if label.startswith('minimal') else
                                           ('sized:%d' % len(pl)) if label.startswith('sized') else None),
@@ -1051,11 +1183,11 @@ def table_case(ctx, tool, lines, intents, flags, perline=True, label='table', ve
             if raised_line is None:
                 # per-line run did not locate it (perline off): find the first line that raises alone
                 for ln in lines:
-                    if line_real(tool, ln, verbose).startswith('raise'):
+                    if line_real(tool, ln, verbose, clock).startswith('raise'):
                         raised_line = ln
                         break
             ctx.violation(KEY_JUNK if raised_line is not None else KEY_DELIV,
-                          case=dict(stream='line', tool=tool, verbose=verbose, line=hexb(raised_line if raised_line is not None else output),
+                          case=dict(stream='line', tool=tool, verbose=verbose, clock=clock, line=hexb(raised_line if raised_line is not None else output),
                                     intent=['omit']),
                           expected='a line that cannot be interpreted is skipped; the other routes are advertised',
                           observed='server.main raised %s while listing routes: the server process ends' % name,
@@ -1065,11 +1197,11 @@ def table_case(ctx, tool, lines, intents, flags, perline=True, label='table', ve
     return log
 
 
-def line_oracle(ctx, tool, ln, intent, out, level=0):
+def line_oracle(ctx, tool, ln, intent, out, level=0, clock='none'):
     cls = out.split()[0]
     exp = expected_of(intent) if tool != 'x' else None
     if cls == 'raise':
-        ctx.violation(KEY_JUNK, case=dict(stream='line', tool=tool, verbose=level, line=hexb(ln), intent=list(intent)),
+        ctx.violation(KEY_JUNK, case=dict(stream='line', tool=tool, verbose=level, clock=clock, line=hexb(ln), intent=list(intent)),
                       expected=('advertise %s/%d' % exp) if exp else 'line skipped, no exception',
                       observed='list_routes raised ' + out.split()[1], kind='input')
         return
@@ -1090,13 +1222,13 @@ def line_oracle(ctx, tool, ln, intent, out, level=0):
             if ip.split('.')[0] in ('0', '127'):
                 ok = False
             if not ok:
-                ctx.violation(KEY_WRONG, case=dict(stream='line', tool=tool, verbose=level, line=hexb(ln), intent=list(intent)),
+                ctx.violation(KEY_WRONG, case=dict(stream='line', tool=tool, verbose=level, clock=clock, line=hexb(ln), intent=list(intent)),
                               expected='a canonical network address with a prefix length 0..32, or nothing',
                               observed=out, kind='input')
         return
     if got != exp:
         key = KEY_BAREHOST if (intent[0] == 'barehost' and got is None) else KEY_WRONG
-        ctx.violation(key, case=dict(stream='line', tool=tool, verbose=level, line=hexb(ln), intent=list(intent)),
+        ctx.violation(key, case=dict(stream='line', tool=tool, verbose=level, clock=clock, line=hexb(ln), intent=list(intent)),
                       expected=('advertise %s/%d' % exp) if exp else 'nothing advertised (default / 0.x / 127.x / not a route)',
                       observed=out, kind='input')
 
@@ -1155,9 +1287,9 @@ def delivery_oracle(ctx, tcase, exp, known_gap, strict, cr, nframes):
         ctx.violation(KEY_DELIV, case=tcase,
                       expected='plan = ROUTES, the user\'s includes unchanged, then every one of the %d advertised networks as 2,<w>,0,<ip>,0,0 '
                                '(whatever the user\'s own subnets are), the user\'s excludes, then NSLIST; '
-                               'one fw.start() (server verbosity %d, routing tool %s; client listeners: real MultiListener, %s addresses, '
+                               'one fw.start() (server verbosity %d, routing tool %s, clock while its output is read: %s; client listeners: real MultiListener, %s addresses, '
                                'IPv4 %s, IPv6 %s)'
-                               % (len(exp), tcase['verbose'], 'a real child process' if tcase['real'] else 'in memory',
+                               % (len(exp), tcase['verbose'], 'a real child process' if tcase['real'] else 'in memory', tcase.get('clock', 'none'),
                                   {'loop': 'loopback', 'wild': 'wildcard'}[tcase['listen']],
                                   'asked for' if tcase['flags'][0] == '1' else 'not asked for',
                                   'asked for' if tcase['flags'][1] == '1' else 'not asked for'),
@@ -1328,7 +1460,7 @@ def gen_cases(ctx):
     for n in [5461, 5462] + ([40000] if ctx.thorough else []):
         lines, exp = minimal_table(n)
         logs.append(table_case(ctx, 'i', lines, [('route', ip, w) for ip, w in exp], '101',
-                               perline=(n <= 5462), label='minimal:%d' % n))
+                               perline=(n <= 5462), label='minimal:%d' % n, clock='slow-2ms' if n == 5461 else None))
     # the routing tool as a REAL child process writing to a REAL pipe: tables whose text exceeds the pipe buffer
     # (but whose advertisement still fits one frame), so that a server that does not drain the pipe hangs
     for n, v in [(3000, 0), (1200, 1)] + ([(4000, 2), (1000, 0)] if ctx.thorough else []):
@@ -1367,6 +1499,10 @@ def gen_cases(ctx):
         ctx.violation(KEY_CLIENT + ':second-routes-message-accepted', case=dict(stream='client2', flags='101', verbose=cr.level, payload=hexb(b'2,10.0.0.0,8\n')),
                       expected='the firewall is started exactly once; a second ROUTES message is refused',
                       observed=cr.show(), kind='input')
+    # every time profile on the repository's own two tables (placed last: the random streams above are unchanged)
+    for ck in CLOCKS:
+        logs.append(table_case(ctx, 'i', t2, [('omit',), ('omit',), ('route', '192.168.1.0', 24)], '101', clock=ck))
+        logs.append(table_case(ctx, 'n', t1, [('omit',), ('omit',), ('omit',), ('omit',), ('route', '192.168.1.0', 24)], '101', clock=ck))
     return logs
 
 
@@ -1402,6 +1538,7 @@ def compare(ctx, logs):
 
 def run(ctx):
     _case_counter[0] = 0
+    _table_counter[0] = 0
     _level_shift[0] = int(ctx.seed)
     logs = gen_cases(ctx)
     for lg in logs:
@@ -1423,10 +1560,11 @@ def replay(ctx, rep):
     st = case.get('stream')
     if st == 'line':
         ln = common.unhex(case['line'])
-        out = line_real(case['tool'], ln, int(case.get('verbose') or 0))
+        out = line_real(case['tool'], ln, int(case.get('verbose') or 0), case.get('clock') or 'none')
         c2 = common.Ctx('C17', 'quick', 0)
-        line_oracle(c2, case['tool'], ln, tuple(case.get('intent') or ['omit']), out, int(case.get('verbose') or 0))
-        return bool(c2.violations), 'list_routes (verbosity %s) on %r: %s' % (case.get('verbose') or 0, ln[:80], out)
+        line_oracle(c2, case['tool'], ln, tuple(case.get('intent') or ['omit']), out, int(case.get('verbose') or 0), case.get('clock') or 'none')
+        return bool(c2.violations), 'list_routes (verbosity %s, clock %s) on %r: %s' % (
+            case.get('verbose') or 0, case.get('clock') or 'none', ln[:80], out)
     if st == 'table-size':
         regen = case.get('regen')
         if regen and regen.startswith('minimal:'):
@@ -1435,7 +1573,8 @@ def replay(ctx, rep):
             lines, _ = sized_table(int(regen.split(':')[1]))
         else:
             lines = split_lines(common.unhex(case['table']))
-        status, wire = run_server(case['tool'], b''.join(lines), verbose=int(case.get('verbose') or 0))
+        status, wire = run_server(case['tool'], b''.join(lines), verbose=int(case.get('verbose') or 0),
+                                  clock=case.get('clock') or 'none')
         return status[0] != 'sent', 'server.main on %d lines: %s' % (len(lines), ' '.join(status))
     if st == 'table':
         regen = case.get('regen')
@@ -1447,9 +1586,10 @@ def replay(ctx, rep):
             output = common.unhex(case['table'])
             exp = [tuple(e) for e in (case.get('expect') or [])]
         verbose, real = int(case.get('verbose') or 0), bool(case.get('real'))
-        status, wire = run_server(case['tool'], output, verbose=verbose, real=real)
-        how = 'server.main (verbosity %d, tool %s) on %d bytes of tool output: ' % (
-            verbose, 'as a real child process' if real else 'in memory', len(output))
+        clock = case.get('clock') or 'none'
+        status, wire = run_server(case['tool'], output, verbose=verbose, real=real, clock=clock)
+        how = 'server.main (verbosity %d, tool %s, clock %s) on %d bytes of tool output: ' % (
+            verbose, 'as a real child process' if real else 'in memory', clock, len(output))
         if status[0] != 'sent':
             return True, how + ' '.join(status)
         nframes = wire.count(struct.pack('!ccHH', b'S', b'S', 0, ssnet.CMD_ROUTES))
